@@ -339,7 +339,41 @@ func lastLines(s string, n int) string {
 
 // scenario generator: well-formed scripts (every R refers to an earlier C on a live connection, at most 3 commands
 // outstanding at a time so that the manager never waits for room, which would make awaiting impossible)
+// settleShorts inserts a "T" (wait until short time-outs have fired) before every disconnect and at the end of a
+// script while a short-time-out command is outstanding: otherwise the 150 ms timer races the disconnect, and which
+// of the two the caller sees depends on the machine's load (a false alarm seen once in a run under load).
+func settleShorts(script string) string {
+	var out []string
+	shorts := 0
+	for _, t := range strings.Split(script, ",") {
+		switch {
+		case strings.HasPrefix(t, "C") && strings.HasSuffix(t, "S"):
+			shorts++
+		case t == "T":
+			shorts = 0
+		case t == "X":
+			if shorts > 0 {
+				out = append(out, "T")
+				shorts = 0
+			}
+		}
+		out = append(out, t)
+	}
+	if shorts > 0 {
+		out = append(out, "T")
+	}
+	return strings.Join(out, ",")
+}
+
 func genActScripts(r *fw.Rng, n int, withClose bool) []string {
+	out := genActScriptsRaw(r, n, withClose)
+	for i := range out {
+		out[i] = settleShorts(out[i])
+	}
+	return out
+}
+
+func genActScriptsRaw(r *fw.Rng, n int, withClose bool) []string {
 	var out []string
 	fixed := []string{
 		"J,CaL,Ra", "J,CaS,T", "J,CaS,W,T", "J,CaL,CbL,Rb,Ra", "J,CaL,Ra,Ra,H", "CaL", "J,X,CaL", "J,CaL,H,Ra,H",
